@@ -158,6 +158,7 @@ fn eval_c09(case: &Case, acc: &Acc) -> Vec<Violation> {
     // (by construction) and every production of a user non-terminal must stem from the user's
     // productions: the number of productions of user non-terminals can only be explained if no
     // helper shares the name -> covered by the per-non-terminal language equality above.
+    acc.fallback(|| json!({"grammar": g.short()}));
     if acc.want_sample() && helpers >= 2 {
         acc.sample(json!({"grammar": g.short(), "canonical": parol_cfg_text(&gc.cfg), "sentences<=n": reference[0].len()}));
     }
@@ -259,6 +260,7 @@ fn eval_c10(case: &Case, acc: &Acc) -> Vec<Violation> {
     if !dup.is_empty() {
         out.push(vio("suffix_name_clash", format!("{}: new names {dup:?} clash", g.short()), case, json!({})));
     }
+    acc.fallback(|| json!({"grammar": g.short()}));
     if acc.want_sample() && changed && nts1.len() >= 3 {
         acc.sample(json!({"grammar": g.short(), "before": parol_cfg_text(&cfg0), "after": parol_cfg_text(&fact)}));
     }
@@ -430,6 +432,7 @@ fn eval_c11(case: &Case, acc: &Acc) -> Vec<Violation> {
     if !(r_nonprod.is_empty() && r_unreach.is_empty() && r_lrec.is_empty() && r_null.is_empty()) {
         acc.distinct(g);
     }
+    acc.fallback(|| json!({"grammar": g.short()}));
     if acc.want_sample() && !r_lrec.is_empty() && !r_null.is_empty() && r_nonprod.is_empty() {
         acc.sample(json!({"grammar": g.short(), "nullable": r_null, "non_productive": r_nonprod, "unreachable": r_unreach, "left_recursive": r_lrec}));
     }
@@ -573,6 +576,7 @@ fn eval_c12(case: &Case, acc: &Acc) -> Vec<Violation> {
         }
         Err(m) => out.push(vio("augmented_grammar_broken", format!("{}: {m}", g.short()), case, json!({}))),
     }
+    acc.fallback(|| json!({"grammar": g.short()}));
     if acc.want_sample() && st != gc.cfg.st && recursive_start {
         acc.sample(json!({"grammar": g.short(), "augmented": parol_cfg_text(&t)}));
     }
